@@ -450,6 +450,21 @@ rw_strcmp(const char *a, const char *b)
     (g_x >= start[0] && g_rx == 0 && g_i < count[0] && g_y >= start[1] && g_ry == 0 && g_j < count[1])
 #define RW_IMG_BYTES (RW_PS * RW_XD * RW_YD)
 
+/* GRIil_convert is replaced by its contract here: the ghost-element permutation clause of units/mfgr_u.c (checked there,
+   bounded: obligations GRIil_convert_*), stated for the ghost request element of this unit.  The requires are what
+   GRreadimage/GRwriteimage must establish at the call. */
+#define IL_VALID(il) ((il) == MFGR_INTERLACE_PIXEL || (il) == MFGR_INTERLACE_LINE || (il) == MFGR_INTERLACE_COMPONENT)
+int GRIil_convert(const void *inbuf, gr_interlace_t inil, void *outbuf, gr_interlace_t outil, int32 dims[2], int32 ncomp, int32 nt)
+    __CPROVER_requires(IL_VALID(inil) && IL_VALID(outil))
+    __CPROVER_requires(dims != NULL && dims[0] >= 1 && dims[0] <= RW_MAXCNT && dims[1] >= 1 && dims[1] <= RW_MAXCNT)
+    __CPROVER_requires(ncomp == RW_NCOMP && nt == RW_NT)
+    __CPROVER_requires(inbuf != NULL && outbuf != NULL && !__CPROVER_same_object(inbuf, outbuf))
+    __CPROVER_assigns(__CPROVER_object_upto(outbuf, (__CPROVER_size_t)(dims[0] * dims[1] * RW_PS)))
+    __CPROVER_ensures(__CPROVER_return_value == SUCCEED || __CPROVER_return_value == FAIL)
+    __CPROVER_ensures(__CPROVER_return_value == FAIL || !(g_i >= 0 && g_i < dims[0] && g_j >= 0 && g_j < dims[1]) ||
+                      ((const uint8 *)outbuf)[IL_IDX(outil, g_i, g_j, g_c, dims[0], dims[1], RW_NCOMP) * RW_CS + g_bb] ==
+                          ((const uint8 *)inbuf)[IL_IDX(inil, g_i, g_j, g_c, dims[0], dims[1], RW_NCOMP) * RW_CS + g_bb]);
+
 int GRreadimage(int32 riid, int32 start[2], int32 in_stride[2], int32 count[2], void *data)
     __CPROVER_requires(g_ri != NULL && g_ri->gr_ptr == g_gr && RW_XD >= 1 && RW_YD >= 1)
     __CPROVER_requires(0 <= g_c && g_c < RW_NCOMP && 0 <= g_bb && g_bb < RW_CS)
@@ -656,6 +671,10 @@ mk_image_io(int32 xdim, int32 ydim, int for_write)
         g_ri->img_tag = DFTAG_NULL;
         g_ri->img_ref = DFREF_WILDCARD;
     }
+#ifdef RW_DATAONLY
+    has_data = 1;
+    H4V_ASSUME(tagref_assigned);
+#endif
     g_has_data = has_data != 0;
     g_elem_len = has_data ? RW_PS * xdim * ydim : 0;
     /* a pending compression request only exists before the first write */
@@ -684,6 +703,9 @@ mk_fill_attr(void)
 {
     H4V_ND(int, attr_present);
     g_attr_present = attr_present != 0;
+#ifdef RW_NOATTR
+    g_attr_present = 0;
+#endif
     if (g_attr_present) {
         static const char fillname[11] = FILL_ATTR;
         memcpy(g_attr_name, fillname, sizeof fillname);
@@ -773,7 +795,7 @@ h_GRreadimage(void)
     g_fill_exp  = g_attr_present ? g_attr_data[g_c * RW_CS + g_bb] : 0;
     g_doff      = RW_PS * ((sy + g_j * ety) * xdim + sx + g_i * etx) + g_c * RW_CS + g_bb;
 #ifdef RW_NOCONV
-    H4V_ASSUME(g_ri->img_dim.file_nt_subclass == g_pnsc);
+    g_ri->img_dim.file_nt_subclass = (uint8)g_pnsc;
 #endif
     int r       = GRreadimage(riid, start, stride, count, data);
     H4V_COVER(r == SUCCEED && g_has_data && tx == 1 && ty == 1 && sx == 0 && sy == 0 && cx == xdim && cy == ydim && !stride_null,
